@@ -16,7 +16,11 @@ def gen_expr(rng):
     tags = []
     x = tt(rng, N)
     r = rng.random()
-    if r < 0.5:
+    if r < 0.12 and d >= 2:      # broadcasting: shorter right operand and/or size-1 modes (the unmatched leading cores are copied)
+        k = rng.randint(1, d)
+        Ny = [n if rng.random() < 0.6 else 1 for n in N[d - k:]]
+        y = tt(rng, Ny); op = rng.choice(["OAdd", "OSub", "OMul", "OMul"]); e = Op(op, [x, y]); tags.append(op + ":bcast")
+    elif r < 0.5:
         y = tt(rng, N); op = rng.choice(["OAdd", "OSub", "OMul"]); e = Op(op, [x, y]); tags.append(op)
     elif r < 0.65:
         op = rng.choice(["OMul", "ORMul", "OAdd", "OSub", "ORSub"]); e = Op(op, [x, Scal(rng.choice(["int", "float"]), rng.choice([2, -3, 1]))]); tags.append(op + ":scalar")
@@ -129,19 +133,38 @@ def run(tier, seed, replay=None):
             for l in lits: l._override = [torch.tensor(c, dtype=torch.float64) for c in l.cores]
             expr.EVAL_ID[0] += 1
             objs = [l.impl([], torch.float64) for l in lits]
-            for (l, k) in tracked: torchtt.grad.watch(objs[lits.index(l)], [k])
-            r = e.impl([], torch.float64)
-            val = ((r.full() if isinstance(r, torchtt.TT) else r) * w).sum()
-            l0 = tracked[0][0]; ks = [k for (l, k) in tracked if l is l0]
-            g = torchtt.grad.grad(val, objs[lits.index(l0)], ks)
-            gd = torch.autograd.grad((F_dense(*[t.clone().requires_grad_(True) for t in inputs]) * w).sum(), [l._override[k] for (l, k) in tracked if l is l0], allow_unused=True)
-            for gg, gr, k in zip(g, gd, ks):
-                want = gr if gr is not None else torch.zeros(l0.cores[k].shape, dtype=torch.float64)
-                if gg is None: gg = torch.zeros_like(want)
-                if list(gg.shape) != list(l0.cores[k].shape): fails.append("grad.grad returns a gradient whose shape is not the core's")
-                elif not torch.equal(gg, want): fails.append("grad.grad differs from the gradient of the dense expression")
+            use_list = i % 3 == 0                      # every third case goes through watch_list / grad_list (all cores of all operands)
+            if use_list:
+                torchtt.grad.watch_list(objs)
+                r = e.impl([], torch.float64)
+                val = ((r.full() if isinstance(r, torchtt.TT) else r) * w).sum()
+                aio = i % 2 == 0
+                gl = torchtt.grad.grad_list(val, objs, all_in_one=aio)
+                if not aio: gl = [c for sub in gl for c in sub]
+                allc = [(l, k) for l in lits for k in range(len(l.cores))]
+                leaves = [torch.tensor(l.cores[k], dtype=torch.float64, requires_grad=True) for l, k in allc]
+                for l in lits: l._override = [leaves[allc.index((l, k))] for k in range(len(l.cores))]
+                gd = torch.autograd.grad((e.dense([], torch.float64) * w).sum(), leaves, allow_unused=True)
+                if len(gl) != len(allc): fails.append("grad.grad_list returns %d gradients for %d cores" % (len(gl), len(allc)))
+                for gg, gr, (l, k) in zip(gl, gd, allc):
+                    want = gr if gr is not None else torch.zeros(l.cores[k].shape, dtype=torch.float64)
+                    if gg is None: gg = torch.zeros_like(want)
+                    if list(gg.shape) != list(l.cores[k].shape): fails.append("grad.grad_list returns a gradient whose shape is not the core's")
+                    elif not torch.equal(gg, want): fails.append("grad.grad_list differs from the gradient of the dense expression"); break
+            else:
+                for (l, k) in tracked: torchtt.grad.watch(objs[lits.index(l)], [k])
+                r = e.impl([], torch.float64)
+                val = ((r.full() if isinstance(r, torchtt.TT) else r) * w).sum()
+                l0 = tracked[0][0]; ks = [k for (l, k) in tracked if l is l0]
+                g = torchtt.grad.grad(val, objs[lits.index(l0)], ks)
+                gd = torch.autograd.grad((F_dense(*[t.clone().requires_grad_(True) for t in inputs]) * w).sum(), [l._override[k] for (l, k) in tracked if l is l0], allow_unused=True)
+                for gg, gr, k in zip(g, gd, ks):
+                    want = gr if gr is not None else torch.zeros(l0.cores[k].shape, dtype=torch.float64)
+                    if gg is None: gg = torch.zeros_like(want)
+                    if list(gg.shape) != list(l0.cores[k].shape): fails.append("grad.grad returns a gradient whose shape is not the core's")
+                    elif not torch.equal(gg, want): fails.append("grad.grad differs from the gradient of the dense expression")
         except Exception as ex:
-            fails.append("grad.grad raises %s" % type(ex).__name__)
+            fails.append("grad.grad / grad_list raises %s" % type(ex).__name__)
         for l in lits: l._override = None
         for f in fails:
             V.fail("%s: %s" % (f[:60], "+".join(tags[-2:])), dict(desc, failure=f))
@@ -179,7 +202,7 @@ def run(tier, seed, replay=None):
             else: n_model += 1
     nviol = V.finish()
     cov = proofcheck.coverage(PID, obl, evaluations=n, distinct_nontrivial=len(set(json.dumps(m["expr"], sort_keys=True, default=str) for m in metas)),
-        rule=("expressions of depth 1..3 over + - * (TT and scalar), unary minus, A@x, x@A, kron, sum (all / subset), dot, bilinear_form, slicing, apply_mask, cat, pad, diag, mprod, "
+        rule=("expressions of depth 1..3 over + - * (TT and scalar, incl. broadcasting against a shorter operand), unary minus, A@x, x@A, kron, sum (all / subset), dot, bilinear_form, slicing, apply_mask, cat, pad, diag, mprod, "
               "squared norm, on operands of order 1..4 with small-integer cores; a random subset of the cores of all operands is tracked and given a random integer direction; the "
               "implementation's value and directional derivative (torch.autograd.functional.jvp through the torchtt code) must equal, exactly, those of the same expression on dense "
               "arrays rebuilt differentiably from the same cores, and those of the Coq model evaluated over dual integers; torchtt.grad.watch/grad results are compared (shape and "
